@@ -38,6 +38,14 @@ class Ctx(object):
             for m in self.modules:
                 for n in m.funcs:
                     if n in known or n.startswith('cfg_yy') or n.startswith('yy'):
+                        # a file-local function whose parameter types are no longer the listed ones has been given another
+                        # interface: what the rules know about it by name no longer applies - it is analysed as part of its
+                        # callers like any helper
+                        want = (ref_.get('params') or {}).get(n)
+                        f_ = m.funcs[n]
+                        if n in known and want is not None and getattr(f_, 'internal', False) and \
+                                not (len(want) == len(f_.params) and all(w[0] == p_.ty for w, p_ in zip(want, f_.params))):
+                            self.unknown_funcs.add(n)
                         continue
                     self.unknown_funcs.add(n)
         sym.AUTO_INLINE = set(self.unknown_funcs)
